@@ -1475,7 +1475,9 @@ impl World {
         let fees: Vec<u64> = committed.iter().map(|t| t.fee).collect();
 
         // cellbase
-        let miner_lock = self.lock(&[0xC0, recipe.miner]);
+        // miners 250.. use a lock so large that, outside short epochs, the finalised reward cannot fund
+        // the reward cell: the cellbase that finalises such a block has no output
+        let miner_lock = if recipe.miner >= 250 { self.lock(&vec![0xC0; 30_000]) } else { self.lock(&[0xC0, recipe.miner]) };
         let mut cb = TransactionBuilder::default()
             .input(CellInput::new_cellbase_input(number))
             .witness(
